@@ -15,7 +15,7 @@ pub fn plan() -> Plan {
         meta: Meta {
             property: "C13",
             level: "exploration",
-            rule: "bounded-liveness probe after random call sequences: a history over the whole public API (data operations, try_* lifecycle calls, create/close/restore_active_blob_in_background in states where they do and do not apply, force_update_active_blob with predicates true / false / records>2, free_excess_resources, offload, fsync, restarts) runs on a storage with a record limit of 5 per blob; then the probe: (i) Storage::verif_worker_alive() - the worker task has not finished (timing-free); (ii) the active blob is filled beyond its record limit, the 200 ms rotation debounce is waited out once, at most 3 more records are written, each followed by a worker barrier: next_blob_id must have advanced and the previous blob must be closed; (iii) after barriers every non-empty closed blob has a current index file (written bit set, recorded blob size == size of the blob file): first without flushing deferred dumps (the worker's own timers must fire, bounded by 3 s of polling = 1000x the configured deferred maximum), plus a dedicated scenario in which try_close_active_blob requests a dump while the previous dump task is still running (its index write delayed 20-60 ms through an H1 failpoint): the request must still be served; (iv) close() returns: while it is pending the I/O tap's in-flight counter and event count are sampled every 50 ms; 'pending, nothing in flight and no file operation during >=100 samples over 8 s' is reported as a hang, a watchdog firing while I/O still happens is inconclusive. Non-trivial = history containing a background request that did not apply in its state, or a deferred dump; distinct = hash(history).",
+            rule: "bounded-liveness probe after random call sequences: a history over the whole public API (data operations, try_* lifecycle calls, create/close/restore_active_blob_in_background in states where they do and do not apply, force_update_active_blob with predicates true / false / records>2, free_excess_resources, offload, fsync, restarts) runs on a storage with a record limit of 5 per blob; then the probe: (i) Storage::verif_worker_alive() - the worker task has not finished (timing-free); (ii) the active blob is filled beyond its record limit, the 200 ms rotation debounce is waited out once, at most 3 more records are written, each followed by a worker barrier: next_blob_id must have advanced and the previous blob must be closed; (iii) after barriers every non-empty closed blob has a current index file (written bit set, recorded blob size == size of the blob file): first without flushing deferred dumps (the worker's own timers must fire, bounded by 3 s of polling = 1000x the configured deferred maximum), plus a dedicated scenario in which try_close_active_blob requests a dump while the previous dump task is still running (its index write delayed 20-60 ms through an H1 failpoint): the request must still be served, and a variant in which one delete appends a marker to 3-5 dumped closed blobs while every index write takes 110-260 ms, so that the dump pass outlasts pearl's 200 ms time slice and must be continued without skipping a blob; the overflow probe exceeds a 5-record limit or a 500-byte size limit; a third of the histories run with a dirty-byte limit of 0..1000 and blob syncs slowed by 2-9 ms, and every history runs under a timing-free hang monitor (pending + no file operation started, finished or in flight during >=100 consecutive samples over 15 s = deadlock); (iv) close() returns: while it is pending the I/O tap's in-flight counter and event count are sampled every 50 ms; 'pending, nothing in flight and no file operation during >=100 samples over 8 s' is reported as a hang, a watchdog firing while I/O still happens is inconclusive. Non-trivial = history containing a background request that did not apply in its state, or a deferred dump; distinct = hash(history).",
             assumptions: vec!["liveness is restated as bounded progress: N further operations + worker barriers; the only real-time waits are pearl's own 200 ms debounce and the deferred-dump timers", "verdict holds for the histories generated for this seed"],
         },
         shards: 16,
